@@ -186,3 +186,65 @@ class CollectionMerge(Contract):
 
     def frame_ok(self, I, inp, obj, name):
         return False
+
+
+@register
+class CollectionIndex(Contract):
+    """SigmaCollection.__post_init__: every rule - detection rule or correlation rule - is reachable by its id (if it has one) AND by its
+    name (if it has one); filters are kept apart; rules keep their order"""
+    id = "C09.SigmaCollection.__post_init__"
+    target = "sigma.collection:SigmaCollection.__post_init__"
+    props = ("C09", "C11")
+    cases = ("RR", "RC", "CR", "CC", "RFC")
+    assumed = ["apply_filters / resolve_rule_references are separate (both switched off here)"]
+
+    def args(self, I, case):
+        idx = I.E.index
+        K = {"R": idx.lookup("sigma.rule.rule:SigmaRule"), "C": idx.lookup("sigma.correlations:SigmaCorrelationRule"), "F": idx.lookup("sigma.filters:SigmaFilter")}
+        objs = []
+        for i, k in enumerate(case):
+            has_id, has_name = (i % 2 == 0 or k == "C"), True
+            o = SObj(K[k], {"id": I.fresh(f"id{i}", "opaque", "UUID") if has_id else None, "name": I.fresh(f"name{i}", "str") if has_name else None}, lazy=True)
+            o.ghost["k"] = k
+            objs.append(o)
+        me = SObj(idx.lookup("sigma.collection:SigmaCollection"), {"rules": [], "filters": [], "errors": []}, lazy=True)
+        return {"self": me, "args": [objs, True, False], "objs": objs}
+
+    def post(self, I, inp, r):
+        c, me = I.ctx, inp["self"]
+        rules = [o for o in inp["objs"] if o.ghost["k"] != "F"]
+        c.require(len(me.fields["rules"]) == len(rules) and all(a is b for a, b in zip(me.fields["rules"], rules)), "rules and correlation rules, in order")
+        c.require([o for o in me.fields["filters"]] == [o for o in inp["objs"] if o.ghost["k"] == "F"], "filters kept apart")
+        ids, names = me.fields.get("ids_to_rules"), me.fields.get("names_to_rules")
+        for o in rules:
+            if o.fields["id"] is not None:
+                c.require(isinstance(ids, dict) and any(k is o.fields["id"] and v is o for k, v in ids.items()), f"a {'correlation ' if o.ghost['k'] == 'C' else ''}rule with an id is registered under its id")
+            if o.fields["name"] is not None:
+                c.require(isinstance(names, dict) and any(k is o.fields["name"] and v is o for k, v in names.items()), f"a {'correlation ' if o.ghost['k'] == 'C' else ''}rule with a name is registered under its name")
+
+    def frame_ok(self, I, inp, obj, name):
+        return obj is inp["self"]
+
+
+@register
+class AddBackreference(Contract):
+    """add_backreference only records who refers to the rule; whether the rule emits its own query is decided by the referrer's generate
+    flag (disable_output), never inherited from the referrer's own output state"""
+    id = "C09.SigmaRuleBase.add_backreference"
+    target = "sigma.rule.base:SigmaRuleBase.add_backreference"
+    props = ("C09",)
+    cases = (True, False)
+
+    def args(self, I, case):
+        idx = I.E.index
+        me = SObj(idx.lookup("sigma.rule.base:SigmaRuleBase"), {"_backreferences": [], "_output": True}, lazy=True)
+        other = SObj(idx.lookup("sigma.rule.base:SigmaRuleBase"), {"_backreferences": [], "_output": case}, lazy=True)
+        return {"self": me, "args": [other], "other": other}
+
+    def post(self, I, inp, r):
+        me = inp["self"]
+        I.ctx.require(len(me.fields["_backreferences"]) == 1 and me.fields["_backreferences"][0] is inp["other"], "the referring rule is recorded")
+        I.ctx.require(me.fields["_output"] is True, "the output flag is untouched")
+
+    def frame_ok(self, I, inp, obj, name):
+        return False
